@@ -2,6 +2,8 @@ package main
 
 import (
 	"fmt"
+	"sort"
+	"strings"
 	"time"
 
 	"github.com/gammazero/nexus/v3/router"
@@ -12,9 +14,16 @@ import (
 )
 
 // runAttach attaches a client to a real router through every transport x
-// serializer of harness/tpeers and runs one subscribe/publish/event round trip:
-// the observable outcome must be the same for all of them.
+// serializer of harness/tpeers and runs one subscribe/publish/event/goodbye
+// round trip: the observable outcome must be the same for all of them, the
+// GOODBYE reply included. The router queues that reply and closes the peer at
+// once; before the drain fix the socket peers discarded it whenever Close won
+// the race, so the scenario is repeated (-rounds).
 func runAttach(_ *hcommon.RNG) {
+	rounds := *flagRounds
+	if thorough {
+		rounds *= 8
+	}
 	var first string
 	for _, tr := range tpeers.Transports {
 		sers := tpeers.Serializations
@@ -23,18 +32,30 @@ func runAttach(_ *hcommon.RNG) {
 		}
 		for _, s := range sers {
 			cfg := tpeers.Config{Transport: tr, Serialization: s}
-			in := map[string]any{"section": "attach", "transport": cfg.Name()}
-			guard("attach", in, func() {
-				out := attachOnce(cfg)
-				note("attach", cfg.Name())
-				if first == "" {
-					first = out
-					sum.AddSample(map[string]any{"op": "attach " + cfg.Name(), "trace": out}, 12)
+			for round := 0; round < rounds; round++ {
+				in := map[string]any{"section": "attach", "transport": cfg.Name(), "round": round}
+				ok := true
+				guard("attach", in, func() {
+					out := attachOnce(cfg)
+					if round == 0 {
+						note("attach", cfg.Name())
+					} else {
+						sum.Evaluations++
+						sum.Count("attach")
+					}
+					if first == "" {
+						first = out
+						sum.AddSample(map[string]any{"op": "attach " + cfg.Name(), "trace": out}, 12)
+					}
+					if out != first {
+						ok = false
+						disagree("attach", in, out, first, true, "the same scenario looks different through "+cfg.Name()+" than in-process")
+					}
+				})
+				if !ok {
+					break
 				}
-				if out != first {
-					disagree("attach", in, out, first, true, "the same scenario looks different through "+cfg.Name()+" than in-process")
-				}
-			})
+			}
 		}
 	}
 }
@@ -66,24 +87,30 @@ func attachOnce(cfg tpeers.Config) string {
 	step := func(m wamp.Message) {
 		p.Client.Send() <- m
 	}
+	// PUBLISHED (sent by the session handler) and the EVENT to the same session
+	// (sent by the broker) come from different goroutines: their order is not
+	// defined, so the messages of one step are sorted.
 	expect := func(n int) {
+		var step []string
 		for i := 0; i < n; i++ {
 			m := recv()
 			if m == nil {
-				trace += "<nothing> "
-				return
+				step = append(step, "<nothing>")
+				break
 			}
 			switch m := m.(type) {
 			case *wamp.Event:
 				a, _ := wamp.AsString(m.Arguments[0])
 				n, _ := wamp.AsInt64(m.Arguments[1])
-				trace += fmt.Sprintf("EVENT(%s,%d) ", a, n)
+				step = append(step, fmt.Sprintf("EVENT(%s,%d)", a, n))
 			case *wamp.Goodbye:
-				trace += fmt.Sprintf("GOODBYE(%s) ", m.Reason)
+				step = append(step, fmt.Sprintf("GOODBYE(%s)", m.Reason))
 			default:
-				trace += m.MessageType().String() + " "
+				step = append(step, m.MessageType().String())
 			}
 		}
+		sort.Strings(step)
+		trace += strings.Join(step, " ") + " | "
 	}
 	step(&wamp.Hello{Realm: "c15.realm", Details: wamp.Dict{"roles": wamp.Dict{"subscriber": wamp.Dict{}, "publisher": wamp.Dict{}}}})
 	expect(1)
@@ -92,15 +119,6 @@ func attachOnce(cfg tpeers.Config) string {
 	step(&wamp.Publish{Request: 2, Options: wamp.Dict{"acknowledge": true, "exclude_me": false}, Topic: "c15.topic", Arguments: wamp.List{"hello", 42}})
 	expect(2)
 	step(&wamp.Goodbye{Reason: wamp.CloseRealm, Details: wamp.Dict{}})
-	// The GOODBYE reply is queued and the router then closes the peer at once;
-	// rawSocketPeer.Close / websocketPeer.Close cancel the sender goroutine and
-	// discard what is still queued, so over the socket transports the reply is
-	// lost whenever Close wins the race (reported to the lead as a candidate
-	// finding). The smoke test counts it and does not compare it.
-	before := trace
 	expect(1)
-	if trace != before+"GOODBYE(wamp.close.goodbye_and_out) " {
-		sum.Count("attach:goodbye-reply-lost/" + cfg.Name())
-	}
-	return before
+	return trace
 }
